@@ -233,6 +233,29 @@ async fn call(wb: &wcl::Worterbuch, sh: &Arc<Shared>, item: &Value, subs: &mut V
                 Err(e) => (conn_err(&e), None, None),
             }
         }
+        // fire-and-forget subscriptions: the call returns the transaction id, nothing is awaited and no
+        // receiver exists; a round trip afterwards makes sure the request has been processed
+        "sub_async" | "psub_async" | "subls_async" => {
+            let r = match op.as_str() {
+                "sub_async" => wb.subscribe_async(key!("key"), b(item, "unique"), b(item, "live")).await,
+                "psub_async" => wb.psubscribe_async(key!("pat"), b(item, "unique"), b(item, "live"), None).await,
+                _ => {
+                    let parent = {
+                        let mut n = sh.names.lock().await;
+                        key_opt(&mut n, &item["parent"])
+                    };
+                    wb.subscribe_ls_async(parent).await
+                }
+            };
+            match r {
+                Ok(tid) => {
+                    if op == "subls_async" { lss.push(tid) } else { subs.push(tid) }
+                    let _ = wb.ls(Some("__sync".to_owned())).await;
+                    (json!({"t": "async"}), Some(tid), None)
+                }
+                Err(e) => (conn_err(&e), None, None),
+            }
+        }
         "subls" => {
             let parent = {
                 let mut n = sh.names.lock().await;
